@@ -136,6 +136,24 @@ fn flip_last(s: &str) -> String {
     v.into_iter().collect()
 }
 
+/// Failing tokens of different shapes (variant 0..3): a flipped character, the tag / signature
+/// zeroed (degenerate r = s = 0), its first half zeroed (r = 0), the token truncated by ten bytes.
+fn corrupt(tok: &str, variant: usize, tail: usize) -> String {
+    let cut = tok.match_indices('.').nth(1).map(|(i, _)| i + 1).unwrap_or(0);
+    let (header, _) = tok.split_at(cut);
+    let Ok((mut payload, footer)) = crate::refmodel::disassemble(header, tok) else { return flip_last(tok) };
+    let n = payload.len();
+    let t = tail.min(n);
+    match variant % 4 {
+        0 => return flip_last(tok),
+        1 => payload[n - t..].fill(0),
+        2 => payload[n - t..n - t / 2].fill(0),
+        _ => payload.truncate(n.saturating_sub(10)),
+    }
+    let out = crate::refmodel::assemble(header, &payload, &footer);
+    if out == tok { flip_last(tok) } else { out }
+}
+
 fn mk_expect<B: Backend>(key: &KeySeed) -> Result<Expect, String> {
     let s = mk_shared::<B>(key);
     let msgs: Vec<Vec<u8>> = (0..4u64).map(|i| crate::rng::det_bytes(hash_of(key), 0x17 + i, 10 + 30 * i as usize)).collect();
@@ -149,8 +167,8 @@ fn mk_expect<B: Backend>(key: &KeySeed) -> Result<Expect, String> {
     }
     let sealed = s.lk.clone().seal(&s.pke_pk).map_err(e)?.to_string();
     Ok(Expect {
-        signed_bad: signed.iter().map(|t| flip_last(t)).collect(),
-        encrypted_bad: encrypted.iter().map(|t| flip_last(t)).collect(),
+        signed_bad: signed.iter().enumerate().map(|(i, t)| corrupt(t, i, B::VER.sig_len())).collect(),
+        encrypted_bad: encrypted.iter().enumerate().map(|(i, t)| corrupt(t, i, B::VER.local_tag_len())).collect(),
         signed,
         encrypted,
         pie: s.sk.clone().wrap_pie(&s.wk).map_err(e)?.to_string(),
@@ -388,7 +406,7 @@ pub fn def() -> PropertyDef {
     PropertyDef {
         id: "C17",
         level: "exploration",
-        rule: "proptest plans: 1..16 real threads x up to 40 operations each over {sign, verify, encrypt, decrypt, PIE wrap/unwrap, password unwrap, key seal/unseal, id, display, public_key, clone-and-use, clone-and-drop, failing variants (corrupted token, wrong assertion, wrong wrapping key, wrong password, corrupted sealed key), yield / spin points} on ONE shared key set started on a barrier; oracle = sequential model: deterministic operations return exactly the value precomputed on a separate copy of the keys, randomised ones verify / decrypt to the original, failing ones fail, nothing panics; after every plan a fixed probe set on the shared keys gives the sequential results (failed operations must not alter a key). Each back end runs in its own child process: a crash (SIGSEGV / SIGABRT / double free) is reported as a violation. Non-trivial iff >= 2 threads with a clone/drop overlapping uses, or a single-thread history containing failing operations",
+        rule: "proptest plans: 1..16 real threads x up to 40 operations each over {sign, verify, encrypt, decrypt, PIE wrap/unwrap, password unwrap, key seal/unseal, id, display, public_key, clone-and-use, clone-and-drop, failing variants (corrupted tokens: flipped character / zeroed tag or signature (r = s = 0) / zeroed first half (r = 0) / truncated; wrong assertion, wrong wrapping key, wrong password, corrupted sealed key), yield / spin points} on ONE shared key set started on a barrier; oracle = sequential model: deterministic operations return exactly the value precomputed on a separate copy of the keys, randomised ones verify / decrypt to the original, failing ones fail, nothing panics; after every plan a fixed probe set on the shared keys gives the sequential results (failed operations must not alter a key). Each back end runs in its own child process: a crash (SIGSEGV / SIGABRT / double free) is reported as a violation. Non-trivial iff >= 2 threads with a clone/drop overlapping uses, or a single-thread history containing failing operations",
         assumptions: vec![
             "the OS scheduler chooses the interleavings (stress exploration, not schedule enumeration); aws-lc and libsodium are not instrumented, so C-side data races are visible only through wrong results or crashes",
         ],
